@@ -1,5 +1,6 @@
 import Lean  -- WORKAROUND only: checks/common.py's audit snippet uses `CoreM`/`collectAxioms` without importing Lean; nothing below uses it
-import HqModel.Lemmas.AutoAllocIndex
+import HqModel.Lemmas.AutoAllocTrace
+import HqModel.Lemmas.AutoAllocWorkers
 /-!
 # C18 — allocation lifecycle is monotone; worker accounting exact
 Model: `HqModel.AutoAlloc` (M6). The environment (batch system, worker notifications in any order, scheduler
@@ -118,6 +119,169 @@ example :
     (step s4 (.removeQueue 1 false)).outs = [.resp .hasRunning, .sched false] ∧
     (step s4 (.removeQueue 1 true)).outs = [.rm 1 7, .rm 1 8, .evQRemoved 1, .resp .ok, .sched false] ∧
     (step s4 (.removeQueue 1 true)).st.a2q = [] := by
+  decide
+
+/-! ## Announcements -/
+
+/-- **Ledger of one step** (no assumption on ids): for EVERY state, event and environment input, and every
+(queue `x`, allocation `a`): the number of `AllocationFinished(x, a)` events the step emits is exactly the change
+of "allocation `a` of queue `x` is in a finished state" (0 or 1), and every `AllocationStarted(x, a)` it emits is
+paid for by the allocation leaving Queued — unless the step is the accepted removal of a queue (which forgets its
+allocations without announcing anything). -/
+theorem c18_announce_step (s : State) (e : Ev)
+    (hrm : ∀ x f, e = .removeQueue x f → (step s e).st.queues = s.queues) (x a : Nat) :
+    s.fin x a + cntF x a (step s e).outs = (step s e).st.fin x a ∧
+    s.past x a + cntS x a (step s e).outs ≤ (step s e).st.past x a :=
+  step_SLedger s e hrm x a
+
+/-- **Exactly-once announcement.** Along every run from the empty autoallocator (any events, any environment;
+queue ids come from the id counter, i.e. the journal-restore path with explicit ids is not used), for every queue
+id `x` and allocation id `a`, in the sequence `O` of all outputs of the run (the outputs of a final panicking step
+included):
+* `AllocationStarted(x, a)` occurs at most once, `AllocationFinished(x, a)` at most once;
+* if the allocation still exists, `AllocationFinished(x, a)` has occurred exactly once iff its state is finished
+  (normally or unexpectedly);
+* no `AllocationStarted(x, a)` comes after an `AllocationFinished(x, a)`. -/
+theorem c18_announce (c : Consts) (n : Nat) (evs : List Ev) (hne : NoExplicitIds evs) (x a : Nat) :
+    cntS x a (run (init c n) evs).2.1 ≤ 1 ∧ cntF x a (run (init c n) evs).2.1 ≤ 1 ∧
+    (∀ q al, (run (init c n) evs).1.getQueue x = some q → q.findAlloc a = some al →
+      (cntF x a (run (init c n) evs).2.1 = 1 ↔ al.st.isFinished = true)) ∧
+    (∀ O1 O2, (run (init c n) evs).2.1 = O1 ++ Out.evFinished x a :: O2 → Out.evStarted x a ∉ O2) := by
+  have h := TraceInv.ofRun (init c n) [] evs (TraceInv.initial c n) hne
+  simp only [List.nil_append] at h
+  have bounds : cntS x a (run (init c n) evs).2.1 ≤ 1 ∧ cntF x a (run (init c n) evs).2.1 ≤ 1 := by
+    cases hq : (run (init c n) evs).1.getQueue x with
+    | none => have := h.gone x a hq; omega
+    | some q =>
+      have := h.present x a q hq
+      have := State.fin_le_past (run (init c n) evs).1 x a
+      omega
+  refine ⟨bounds.1, bounds.2, ?_, h.order x a⟩
+  intro q al hq ha
+  have hp := (h.present x a q hq).1
+  rw [hp]
+  simp only [State.fin, hq, Queue.fin, ha]
+  cases al.st.isFinished <;> simp
+
+/-- Non-vacuity of `c18_announce`: a run in which one allocation is started and finished by its workers, one is
+finished by a status-error streak, one by an external failure, and a queue is removed. -/
+example :
+    let evs : List Ev :=
+      [.addQueue ⟨3, 1, none⟩ (Limiter.new [0] 5 5) none,
+       .tick 0 [1] (.ok [3] []) [.ok 7, .ok 8, .ok 9],
+       .workerConnected 4 7, .workerConnected 4 7, .workerLost 4 7 true, .workerLost 4 7 true,
+       .refresh [(1, .callErr [8, 9])], .refresh [(1, .statuses [(8, .error), (9, .failed)])],
+       .refresh [(1, .statuses [(8, .error), (8, .error)])],
+       .workerConnected 5 9, .removeQueue 1 false, .workerConnected 6 7]
+    NoExplicitIds evs ∧
+    ((run (init ⟨1, 20, 0⟩ 1) evs).2.1.filter fun o => match o with | .evStarted .. => true | .evFinished .. => true | _ => false) =
+      [.evStarted 1 7, .evFinished 1 7, .evFinished 1 8, .evFinished 1 9] := by
+  constructor
+  · intro e he p l q
+    simp only [List.mem_cons, List.mem_nil_iff, or_false] at he
+    rcases he with rfl | rfl | rfl | rfl | rfl | rfl | rfl | rfl | rfl | rfl | rfl | rfl <;> simp
+  · decide
+
+/-! ## Worker accounting -/
+
+/-- **Connected workers are exact.** For one allocation of size `t`, seen as the automaton `allocRun` fed with ALL
+its inputs in any order (connects / losses from any workers incl. duplicates and loss-before-connect, external
+statuses incl. contradictory ones, status errors): if the input `first` makes it leave Queued and after the further
+inputs `post` it is Running with connected set `cn` and disconnected set `d`, then
+* `w ∈ cn` iff the last worker event for `w` since the allocation left Queued is a connect;
+* `d` has no duplicates and contains exactly the workers with a loss event while Running — so its length is the
+  number of DISTINCT workers lost. -/
+theorem c18_workers (c : Consts) (t e0 : Nat) (first : AIn) (post : List AIn) (cn : List Nat) (d : List (Nat × Bool))
+    (e : Nat) (h : allocRun c t (.queued e0) (first :: post) = .running cn d e)
+    (hleft : (allocStep c t (.queued e0) first).isQueued = false) :
+    (∀ w, w ∈ cn ↔ lastEv w (first :: post) = some true) ∧
+    (d.map (·.1)).Nodup ∧ (∀ w, w ∈ d.map (·.1) ↔ ∃ cr, AIn.sync (.lost w cr) ∈ post) := by
+  rw [allocRun_cons] at h
+  rcases allocStep_queued c t e0 first with ⟨e1, h1, _⟩ | ⟨w0, hf, h1⟩ | ⟨hf, h1⟩ | ⟨f, h1⟩
+  · rw [h1] at hleft; simp [AState.isQueued] at hleft
+  · rw [h1] at h
+    obtain ⟨hc, hd, hn⟩ := allocRun_running c t post [w0] [] 0 cn d e h
+    refine ⟨?_, hn (by simp), by intro w; rw [hd w]; simp⟩
+    intro w
+    rw [hc w, hf]
+    simp only [lastEv, AIn.workerEv]
+    cases hl : lastEv w post with
+    | some b => simp
+    | none =>
+      by_cases hw : w0 = w
+      · simp [hw]
+      · have : ¬ w = w0 := fun h => hw h.symm
+        simp [hw, this]
+  · rw [h1] at h
+    obtain ⟨hc, hd, hn⟩ := allocRun_running c t post [] [] 0 cn d e h
+    refine ⟨?_, hn (by simp), by intro w; rw [hd w]; simp⟩
+    intro w
+    rw [hc w, hf]
+    simp only [lastEv, AIn.workerEv]
+    cases hl : lastEv w post with
+    | some b => simp
+    | none => simp
+  · rw [h1, allocRun_finished _ _ _ _ (by simp [AState.isFinished])] at h
+    cases h
+
+/-- **Normal finish exactly at the target.** An input turns a not-yet-finished allocation into `Finished` (the
+normal end) iff the allocation is Running, the input is the loss of a worker `w`, and with `w` the number of
+distinct workers lost while Running (`(insertD w cr d).length`, see `c18_workers` / `keys_insertD` /
+`nodup_insertD`) equals the size `t` it was submitted with. In particular a Queued allocation never finishes
+normally, and neither external statuses nor status errors produce a normal finish. -/
+theorem c18_workers_finish (c : Consts) (t : Nat) (st : AState) (i : AIn) (d' : List (Nat × Bool))
+    (hnf : st.isFinished = false) :
+    allocStep c t st i = .finished d' ↔
+      ∃ cn d e w cr, st = .running cn d e ∧ i = .sync (.lost w cr) ∧ d' = insertD w cr d ∧
+        (insertD w cr d).length = t :=
+  allocStep_finish_iff c t st i d' hnf
+
+/-- the disconnected set after a loss: duplicate-free, the old workers plus the lost one -/
+theorem c18_workers_lost_set (w : Nat) (cr : Bool) (d : List (Nat × Bool)) (h : (d.map (·.1)).Nodup) :
+    ((insertD w cr d).map (·.1)).Nodup ∧ ∀ w', w' ∈ (insertD w cr d).map (·.1) ↔ w' = w ∨ w' ∈ d.map (·.1) :=
+  ⟨nodup_insertD w cr d h, keys_insertD w cr d⟩
+
+/-- **The model feeds the automaton.** For EVERY state, event and environment input: an allocation `a` of queue
+`x` either disappears with its queue (`removeQueue x`), or its new state is the automaton run from its old state on
+some inputs `ins`, each of which the event is allowed to cause for THIS allocation: a connect / loss input only if
+the event is that worker's connect / loss naming `a`, an external status or status error only in a refresh. Ticks,
+pause/resume, job submits and events about other allocations feed nothing. -/
+theorem c18_workers_fed (s : State) (e : Ev) (x : Nat) (q : Queue) (a : Nat) (al : Alloc)
+    (hq : s.getQueue x = some q) (ha : q.findAlloc a = some al) :
+    ((∃ f, e = .removeQueue x f) ∧ (step s e).st.getQueue x = none) ∨
+    ∃ q' al' ins, (step s e).st.getQueue x = some q' ∧ q'.findAlloc a = some al' ∧ al'.target = al.target ∧
+      al'.st = allocRun s.consts al.target al.st ins ∧ ∀ i ∈ ins, Allowed e a i := by
+  rcases step_queue s e x q hq with h | ⟨_, hres⟩ | ⟨q', hq', ht⟩
+  · exact .inl h
+  · exact .inr ⟨_, al, [], hres, ha, rfl, rfl, by intro i hi; cases hi⟩
+  · obtain ⟨al', ins, h1, h2, h3, h4⟩ := ht.allocFed a al ha
+    exact .inr ⟨q', al', ins, hq', h1, h2, h3, h4⟩
+
+/-- … and a worker event naming a known allocation reaches exactly that allocation, once. -/
+theorem c18_workers_event (s : State) (a x : Nat) (r : SyncReason) (q : Queue) (al : Alloc)
+    (hx : a2qLookup a s.a2q = some x) (hq : s.getQueue x = some q) (ha : q.findAlloc a = some al) :
+    ∃ q', (s.workerEvent a r).st.getQueue x = some q' ∧
+      q'.findAlloc a = some { al with st := allocStep s.consts al.target al.st (.sync r) } := by
+  have hid := State.getQueue_id' s x q hq
+  refine ⟨(q.sync a r).1, ?_, ?_⟩
+  · simp only [State.workerEvent, hx, hq]
+    rw [State.getQueue_setQueue, Queue.sync_id, if_pos hid.symm, hq]; rfl
+  · have hai := findAlloc_id q a al ha
+    unfold Queue.sync
+    simp only [ha]
+    unfold Queue.findAlloc at ha ⊢
+    simp only
+    rw [findAlloc_map _ _ (by intro y; split <;> rfl), ha]
+    simp [hai, allocStep]
+
+/-- Non-vacuity of `c18_workers`: loss before connect, duplicate connect, a worker that reconnects, an extra
+worker beyond the target; the allocation of size 2 finishes at the second DISTINCT loss. -/
+example :
+    let ins : List AIn :=
+      [.sync (.lost 9 true), .sync (.conn 1), .sync (.conn 1), .sync (.conn 2), .sync (.conn 3), .sync (.lost 1 false),
+       .sync (.conn 1), .sync (.lost 1 true), .sync (.ext .queued), .err]
+    allocRun ⟨10, 20, 0⟩ 2 (.queued 0) ins = .running [2, 3] [(1, true)] 1 ∧
+    allocRun ⟨10, 20, 0⟩ 2 (.queued 0) (ins ++ [.sync (.lost 3 false)]) = .finished [(1, true), (3, false)] := by
   decide
 
 end HqModel.C18
